@@ -89,6 +89,9 @@ def session(cfgp, script):
     def arr(rows, width):
         a = np.array(rows, dtype=float).reshape(-1, width)
         if hv == 1:
+            dt = cfgp.get("dtype")       # whole-number samples handed over in the narrow integer type they were read in (pixels, 16-bit counts, 32-bit timestamps)
+            if dt and a.size and bool(np.all(a == np.round(a))) and np.iinfo(dt).min <= a.min() and a.max() <= np.iinfo(dt).max:
+                return a.astype(dt)
             return a
         a = a / 2
         return a.astype(np.int64) if a.size and bool(np.all(a == np.round(a))) else a
